@@ -248,7 +248,7 @@ theorem min_struct_r (cfg : Config) (cls : List Cluster) (hcounts : ∀ cl ∈ c
     intro q hqe
     obtain ⟨b, hb, e, he, rfl⟩ := (mem_recreate_edges _ pickMin p q).mp hqe
     have hee := ((mem_outEdges' _ _ e).mp he).1
-    exact trie_labels_r Grapheme.Plainish plainish_widen cls hshape e hee
+    exact trie_labels_r Grapheme.Plainish (fun a g ha hg hc _ => plainish_widen a g ha hg hc) cls hshape e hee
   have hacyc : ∀ c w, Path m c w c → w = [] := fun c w pth => recreate_acyclic_r hst ht hr hra c w pth
   have hN : 1 ≤ m.nodes := by omega
   refine ⟨m, by show minimize (trie cls) pickMin = some m; simp only [minimize, hp, Option.map_some, m], ?_, hacyc, ?_⟩
@@ -265,7 +265,7 @@ theorem trie_struct_r (cfg : Config) (cls : List Cluster) (hcounts : ∀ cl ∈ 
         (trie cls).LangFrom (trie cls).init w := by
   obtain ⟨ht, hacc, _, _⟩ := trie_r cls hcounts
   refine ⟨hacc, ?_⟩
-  have hplain : (trie cls).PlainLabels := trie_labels_r Grapheme.Plainish plainish_widen cls hshape
+  have hplain : (trie cls).PlainLabels := trie_labels_r Grapheme.Plainish (fun a g ha hg hc _ => plainish_widen a g ha hg hc) cls hshape
   have hdfs := dfsOK_of_bounded (trie cls) (by rw [ht.init0]; exact ht.pos) (fun e he => (ht.lt e he).2)
   have hacyc : ∀ c w, Path (trie cls) c w c → w = [] := by
     intro c w pth
